@@ -199,6 +199,14 @@ ADDED11 = {
     "C13": "C13.e / C14.j accept a handler that returns a non-zero status which every caller hands to sys.exit.",
     "C01": "C01.f accepts an early return under a flag that provably means 'every command finished'.",
 }
+ADDED15 = {
+    "C09": "C09.a: out= of the logical ufuncs (logical_or / logical_and / logical_xor) is an in-place site; `getmaskarray(x)` is x's own mask whenever x carries one.",
+    "C03": "C03.a: the accumulator named as out= of an in-place mask union holds the union afterwards.",
+    "C13": "C13.d: no __str__ uses a payload as the format TEMPLATE (text built at the raise sites with model names interpolated - a brace in a name raises while the message is printed), unless every construction passes a literal for it.",
+    "C15": "C15.b: a value written between SINGLE quotes owes the same escaping (the backslash, then the single quote unless a `\"'\" not in text` test rules it out).",
+}
+for _k, _v in ADDED15.items():
+    CLAIMS[_k]["text"] += " " + _v
 ADDED14 = {
     "C01": "C01.o: a command object given as an argument value is stored as that object, not as its result name.",
     "C02": "C02.n: curve commands sort their control points themselves (C08.b); C02.o: the pivot of a partial layer ordering is valid for every legal count.",
